@@ -192,6 +192,11 @@ func (fr *Frame) callVals1(c *ssa.CallCommon, fv *Val, args []*Val, argVals []ss
 	}
 	fc := vc.eng.contractOf(callee)
 	inModule := vc.eng.inModule(callee)
+	if vc.lemma != nil && vc.lemma.InlineAll && inModule && len(callee.Blocks) > 0 && fr.depth < maxInlineDepth && !fr.onStack(callee) {
+		if p := pkgOf(callee); p != nil && p.Pkg.Path() == vc.lemma.PkgPath {
+			return fr.inline(callee, args, fv, rt, pos)
+		}
+	}
 	isLocalClosure := callee.Parent() != nil
 	if fc != nil && !fc.Inline && !(callee == fr.vc.fn) && (len(fc.Ensures) > 0 || len(fc.Requires) > 0 || fc.HasModifies) {
 		fr.curFv = fv
@@ -199,6 +204,10 @@ func (fr *Frame) callVals1(c *ssa.CallCommon, fv *Val, args []*Val, argVals []ss
 	}
 	if inModule && len(callee.Blocks) > 0 && fr.depth < maxInlineDepth && !fr.onStack(callee) && ((fc != nil && fc.Inline) || isLocalClosure || vc.eng.autoInline(callee)) {
 		return fr.inline(callee, args, fv, rt, pos)
+	}
+	if v := fr.generatedGetter(callee, args); v != nil {
+		vc.externals[full+" (assumed: generated protobuf getter returns the field, zero value for a nil receiver)"] = true
+		return v
 	}
 	if inModule {
 		ms := vc.eng.modSetOf(callee)
@@ -655,4 +664,41 @@ func (fr *Frame) builtinCopy(args []*Val, argVals []ssa.Value) *Val {
 	fr.markDirty(hn, "")
 	vc.setHeap(fr.st, hn, hs, ite(eq(n, "0"), h, store(h, sx("sarr", d.T), row)))
 	return fr.mkVal(n, types.Typ[types.Int])
+}
+
+
+// generatedGetter models the plain field getters of the generated protobuf package
+// (func (m *T) GetX() F { if m != nil { return m.X }; return zero }). Oneof accessors, which
+// have no field of their own name, are not modelled.
+func (fr *Frame) generatedGetter(callee *ssa.Function, args []*Val) *Val {
+	p := pkgOf(callee)
+	if p == nil || !strings.Contains(p.Pkg.Path(), "iscp-proto/gen") || !strings.HasPrefix(callee.Name(), "Get") || len(args) != 1 {
+		return nil
+	}
+	recv := callee.Signature.Recv()
+	if recv == nil || callee.Signature.Results().Len() != 1 {
+		return nil
+	}
+	pt, ok := recv.Type().Underlying().(*types.Pointer)
+	if !ok {
+		return nil
+	}
+	st, ok := pt.Elem().Underlying().(*types.Struct)
+	if !ok {
+		return nil
+	}
+	fname := strings.TrimPrefix(callee.Name(), "Get")
+	rt := callee.Signature.Results().At(0).Type()
+	for i := 0; i < st.NumFields(); i++ {
+		if st.Field(i).Name() != fname || !types.Identical(st.Field(i).Type(), rt) || isStruct(rt) {
+			continue
+		}
+		hn := fieldHeapName(pt.Elem(), i)
+		hs := arrSort(SInt, fr.U().sortOf(rt))
+		t := ite(eq(args[0].T, "0"), fr.zero(rt), sel(fr.vc.heap(fr.st, hn, hs), args[0].T))
+		v := fr.mkVal(fr.vc.define("getter", fr.U().sortOf(rt), t), rt)
+		fr.vc.assume(fr.reach, fr.wf(v.T, rt))
+		return v
+	}
+	return nil
 }
